@@ -154,6 +154,30 @@ fn oracles(out: &mut Out, thorough: bool, rng: &mut Rng) {
     }
 }
 
+
+/// tag 121: [format id; channels; precision; w; values...] for the sub-sampled and bi-planar formats (and any other)
+fn emit_wh(out: &mut Out, fi: usize, ch: usize, p: usize, w: u32, h: u32, values: &[u32]) {
+    let Some(bytes) = encode_values(FORMATS[fi].0, ch, p, values, w, h, 0) else { println!("IMPL-VIOLATION encode failed: {} {w}x{h} from {:?} {:?}", FORMATS[fi].1, CHANNELS[ch], PRECS[p]); return; };
+    let mut args: Vec<i128> = vec![fi as i128, ch as i128, p as i128, w as i128];
+    args.extend(values.iter().map(|&v| v as i128));
+    let obs: Vec<i128> = bytes.iter().map(|&b| b as i128).collect();
+    out.count(&format!("fmt_{}", FORMATS[fi].1)); out.count(&format!("in_{}", ch * 3 + p));
+    out.case(121, &args, &obs);
+}
+fn macro_formats(out: &mut Out, thorough: bool, rng: &mut Rng, fin: &[u32]) {
+    for fi in 35..45usize {
+        let bi = fi >= 42;
+        let reps = if thorough { 400 } else { 60 };
+        for rep in 0..reps {
+            let ch = rng.below(4) as usize; let p = rng.below(3) as usize;
+            let (w, h) = if bi { (2 * (1 + rng.below(5) as u32), 2 * (1 + rng.below(3) as u32)) } else { (1 + rng.below(if fi == 35 { 20 } else { 9 }) as u32, 1 + rng.below(3) as u32) };
+            let cnt = CHANNELS[ch].count() as usize;
+            let values: Vec<u32> = (0..(w * h) as usize * cnt).map(|i| match p { 0 => if rep % 3 == 0 { ((rep * 17 + i * 29) % 256) as u32 } else { rng.below(256) as u32 }, 1 => rng.below(65536) as u32, _ => fin[(rep * 31 + i * 7 + rng.below(5) as usize) % fin.len()] }).collect();
+            emit_wh(out, fi, ch, p, w, h, &values);
+        }
+    }
+}
+
 pub fn run(out: &mut Out, tier: &str, seed: u64, corpus: Option<&str>) {
     let thorough = tier == "thorough";
     let mut rng = Rng::new(seed ^ 0xC12);
@@ -172,6 +196,7 @@ pub fn run(out: &mut Out, tier: &str, seed: u64, corpus: Option<&str>) {
     if tier == "replay" { return; }
     oracles(out, thorough, &mut rng);
     let fin = f32_inputs(&mut rng);
+    macro_formats(out, thorough, &mut rng, &fin);
     for fi in 0..35usize {
         for ch in 0..4usize {
             let cnt = CHANNELS[ch].count() as usize;
